@@ -248,11 +248,11 @@ func c10Session(c *fw.Ctx, r *rand.Rand, idx int) {
 
 func init() {
 	fw.Register(&fw.Monitor{
-		ID:        "C10",
-		Level:     "exploration",
-		Race:      true,
-		Technique: "runtime reference-model monitor: after every position/ucinewgame command (synchronised by isready/readyok) the engine's game is compared with the game the command describes, built from scratch, and probed for its future repetition behaviour",
-		Rule: "sessions of 3-13 commands: fresh startpos/FEN lines with 0-40 moves, extension by 1-4 moves, verbatim repeat, odd white space, truncation, different last move, respelling startpos<->fen, ucinewgame, FEN whose clock digits extend the previous FEN, searches in between; after each command: Engine.Position() vs oracle FEN and full board snapshot (position, side, hash, clocks, ply, castled flags, last moves, result) vs a board set up from scratch; at the end the line is extended by reversible shuffles until the oracle counts three occurrences: the engine's game must report the draw at that ply and not earlier; distinct = distinct session transcripts",
+		ID:          "C10",
+		Level:       "exploration",
+		Race:        true,
+		Technique:   "runtime reference-model monitor: after every position/ucinewgame command (synchronised by isready/readyok) the engine's game is compared with the game the command describes, built from scratch, and probed for its future repetition behaviour",
+		Rule:        "sessions of 3-13 commands: fresh startpos/FEN lines with 0-40 moves, extension by 1-4 moves, verbatim repeat, odd white space, truncation, different last move, respelling startpos<->fen, ucinewgame, FEN whose clock digits extend the previous FEN, searches in between; after each command: Engine.Position() vs oracle FEN and full board snapshot (position, side, hash, clocks, ply, castled flags, last moves, result) vs a board set up from scratch; at the end the line is extended by reversible shuffles until the oracle counts three occurrences: the engine's game must report the draw at that ply and not earlier; distinct = distinct session transcripts",
 		Assumptions: []string{"commands are well-formed position lines (malformed ones are C16's subject)"},
 		Setup:       validateOracle,
 		Timeout:     minutes(15, 120),
